@@ -185,6 +185,7 @@ var ocspAlphabet = []string{
 	"revoked-at-after-signing", "revoked-at-after-signing-inv-malformed", "revoked-at-after-signing-inv-before", "revoked-at-equal-signing",
 	"revoked-inv-before", "revoked-inv-equal", "revoked-inv-next-whole-second", "revoked-inv-after", "revoked-inv-malformed", "revoked-inv-trailing",
 	"good-inv-after", "unknown-inv-after", "revoked-delegate-noeku-inv-after",
+	"revoked-inv-after-expired", "revoked-inv-after-no-nextupdate", "revoked-inv-after-critext",
 	"good-critext", "good-nocheck",
 	"err-unauthorized", "err-malformed", "err-internal", "err-trylater", "err-sigrequired",
 	"http-404", "http-500", "http-201-good", "http-203-good", "http-206-good", "http-302-good", "transport-error", "timeout", "empty-body", "garbage", "truncated", "oversize", "body-read-error",
@@ -192,7 +193,7 @@ var ocspAlphabet = []string{
 
 // representative classes for the all-sequences sweep of the quick tier
 var ocspCore = []string{"good", "revoked", "revoked-at-after-signing", "unknown", "good-delegate-eku", "good-delegate-noeku", "good-self-claims-issuer-id",
-	"good-expired", "revoked-inv-after", "err-trylater", "http-500", "transport-error", "garbage"}
+	"good-expired", "revoked-inv-after", "revoked-inv-after-expired", "err-trylater", "http-500", "transport-error", "garbage"}
 
 func (c *ocspCtx) behaviour(label string) *httpBehaviour {
 	spec := OCSPSpec{Status: ocsp.Good, Serial: c.leaf.Cert.SerialNumber, ThisUpdate: c.now.Add(-time.Hour), NextUpdate: c.now.Add(time.Hour)}
@@ -309,6 +310,19 @@ func (c *ocspCtx) behaviour(label string) *httpBehaviour {
 	case "revoked-inv-after", "good-inv-after", "unknown-inv-after":
 		t := stRef.Add(time.Hour)
 		spec.InvDate = &t
+	case "revoked-inv-after-expired", "revoked-inv-after-no-nextupdate", "revoked-inv-after-critext":
+		// an answer that would be excused by its invalidity date, were it current / free of unknown critical extensions: every
+		// other requirement on the answer still stands (the order in which the code looks at them must not matter)
+		t := stRef.Add(time.Hour)
+		spec.InvDate = &t
+		switch label {
+		case "revoked-inv-after-expired":
+			spec.NextUpdate = c.now.Add(-time.Minute)
+		case "revoked-inv-after-no-nextupdate":
+			spec.NextUpdate = time.Time{}
+		default:
+			spec.CritExt = true
+		}
 	case "revoked-inv-malformed":
 		t := stRef.Add(time.Hour)
 		spec.InvDate, spec.InvBad = &t, "malformed"
